@@ -50,7 +50,16 @@ def spellings(m, U, V, x):
         "convert.unit_value": lambda: U(x).convert(V).unit_value,
         "<<.unit_value": lambda: (U(x) << V).unit_value,
         "Unit(q).unit_value": lambda: V(U(x)).unit_value,
+        # the same object looked at BEFORE it is converted in place (its number read, printed), then converted, then read
+        "read,<<,read": lambda: _looked_at(U(x)).__lshift__(V).unit_value,
+        "read,convert,read": lambda: _looked_at(U(x)).convert(V).unit_value,
+        "read,Unit(q),read": lambda: V(_looked_at(U(x))).unit_value,
     }
+
+
+def _looked_at(q):
+    _ = (q.unit_value, str(q), repr(q), q.raw_value, float(q), hash(q))
+    return q
 
 
 def run(chk: core.Check, replay=None) -> None:
@@ -134,6 +143,12 @@ def run(chk: core.Check, replay=None) -> None:
                 y = U(x) >> V
                 via = V(y) >> W
                 direct = U(x) >> W
+                # the same chain on ONE object converted in place, its number read at every stage
+                q_ = _looked_at(U(x))
+                q_ << V
+                _looked_at(q_)
+                q_ << W
+                inplace = q_.unit_value
             except Exception as e:  # noqa
                 chk.violation("C06.ConversionRaised", {"u": u, "v": v, "w": w, "how": "triple"}, {"x": x, "exc": type(e).__name__})
                 continue
@@ -146,6 +161,9 @@ def run(chk: core.Check, replay=None) -> None:
             worst["tri"] = max(worst["tri"], d)
             if d > ULPS_RT:
                 chk.violation("C06.Composition", {"u": u, "v": v, "w": w}, {"x": x, "via": via, "direct": direct, "ulps": d})
+            if inplace != direct:
+                chk.violation("C06.Composition", {"u": u, "v": v, "w": w, "how": "one object converted in place"},
+                              {"x": x, "inplace": inplace, "direct": direct})
         chk.stratum("triples")
     chk.traces += len(ex["pairs"]) + len(ex["triples"])
     chk.exhaustive = False   # unit pairs/triples are exhaustive, magnitudes are sampled
